@@ -5,7 +5,7 @@ use crate::connection::spaces::PacketSpace;
 use crate::crypto::{HeaderKey, KeyPair, PacketKey};
 use crate::packet::{Packet, PartialDecode, SpaceId};
 use crate::token::ResetToken;
-use crate::{RESET_TOKEN_SIZE, TransportError};
+use crate::{RESET_TOKEN_SIZE, TransportError, VarInt};
 
 /// Removes header protection of a packet, or returns `None` if the packet was dropped
 pub(super) fn unprotect_header(
@@ -81,6 +81,12 @@ pub(super) fn decrypt_packet_body(
     let space = packet.header.space();
     let rx_packet = spaces[space].rx_packet;
     let number = packet.header.number().ok_or(None)?.expand(rx_packet + 1);
+    if number > VarInt::MAX.into_inner() {
+        // Packet numbers never exceed 2^62-1 (RFC 9000 section 12.3); a larger one could not be
+        // acknowledged, ACK frames carry them as varints
+        trace!("dropping packet with out-of-range packet number {}", number);
+        return Err(None);
+    }
     let packet_key_phase = packet.header.key_phase();
 
     let mut crypto_update = false;
